@@ -1,8 +1,9 @@
 """C17 - clump output is exactly greedy LD clumping and always terminates.
 
 Relations
-  clump     : haptools.clump.clumpstr end to end (SNP-only / STR-only / mixed, VCF.gz or PGEN SNPs, HipSTR-style
-              STR VCFs, Pearson / Exact) on generated summary-statistic tables: ties, p in {0, 1}, p around both
+  clump     : haptools.clump.clumpstr end to end, called directly or through the `haptools clump` command (SNP-only /
+              STR-only / mixed, VCF.gz or PGEN SNPs, HipSTR-style STR VCF.gz or PGEN, Pearson / Exact) on generated
+              summary-statistic tables: ties, p in {0, 1}, p around both
               thresholds, several chromosomes, permuted / renamed / extra columns, '#' header, blank line, constant
               and missing genotype columns, positions at exactly +-kb.  A hang is reported by the runner as a
               timeout (Err 12).  Malformed stream: missing header field, short row, unparsable number, variant
@@ -730,9 +731,11 @@ LEVEL_TEXT = (
     "model-vs-implementation agreement and the property's finite checker on generated clumpstr runs and ComputeLD calls."
 )
 LEVEL_NOTE = (
-    "Partial: ComputeExactLD's floating-point cubic solver and root choice are not verified (numeric comparison: in "
-    "[0,1], and within 1e-6 of the exact haplotype r^2 when no sample is doubly heterozygous); in Exact mode the clump "
-    "relation uses the r^2 values recorded from ComputeLD. numpy.corrcoef is compared within 1e-9. PGEN STR input "
-    "(GenotypesPLINKTR) and the CLI wrapper are not exercised."
+    "Partial: ComputeExactLD's floating-point cubic solver and its choice among several admissible roots are not "
+    "verified; the root it used is recorded and checked in Coq (in the admissible interval, residual of the model's "
+    "cubic <= 1e-9*n, returned r^2 = the model's formula at that root to 6 decimals), the result must lie in [0,1] and be "
+    "within 1e-6 of the exact haplotype r^2 when no sample is doubly heterozygous; in Exact mode the clump relation uses "
+    "the r^2 values recorded from ComputeLD. numpy.corrcoef is compared within 1e-9 of the exact rational r^2. "
+    "STR genotypes given as PGEN need the un-indexed-read fix (fixes/C07_unindexed_read.patch) to be read at all."
 )
 TECHNIQUE = "Coq proofs (fuel-based loop invariants, Cauchy-Schwarz over Z/Q, field identities) + vm_compute-evaluated correspondence"
